@@ -2605,3 +2605,107 @@ Proof.
   congruence.
 Qed.
 
+
+(** ** Rejection *)
+
+Lemma leqb_eq : forall a b, leqb a b = true -> a = b.
+Proof.
+  induction a as [|x a IH]; intros [|y b] H; simpl in H; try discriminate; [reflexivity|].
+  apply andb_true_iff in H. destruct H as [H1 H2]. apply N.eqb_eq in H1. subst y. f_equal. apply IH. exact H2.
+Qed.
+
+Lemma Stream_AWf : forall a r, Stream a r -> AWf a.
+Proof. intros a r [Hn (p & Hb & Hc)]. split; [exact Hn|]. exists p, r. auto. Qed.
+
+(** The process leaves only on the first word `sudo` (the known finding). *)
+Lemma get_command_name_exit : forall line code, nodelim line ->
+  get_command_name (arguments_from line) = ExitP code ->
+  code = 0 /\ exists ws, words line = str "sudo" :: ws.
+Proof.
+  intros line code Hn. unfold get_command_name. simpl cursor. change (0 =? 0) with true. simpl negb. cbv iota.
+  assert (Hs0 : Stream (arguments_from line) line).
+  { split; [exact Hn|]. exists []. split; reflexivity. }
+  pose proof (next_token_stream cerr _ _ Hs0) as Ht.
+  destruct (words line) as [|w ws] eqn:Ew.
+  { rewrite Ht. simpl. discriminate. }
+  destruct Ht as (a1 & -> & Hs1 & Ew1 & Hc1). simpl bind. cbv iota beta.
+  assert (Hc10 : arg_count a1 = 0) by (rewrite Hc1; reflexivity).
+  pose proof (name_matches_with_subcommand_post a1 w COMMAND_STEP 0 SUBCOMMANDS_STEP (Some StepOver)
+                (Stream_AWf _ _ Hs1) Hc10) as Hp1.
+  destruct (name_matches_with_subcommand a1 w COMMAND_STEP 0 SUBCOMMANDS_STEP (Some StepOver))
+    as [[s a2]|e|p|q]; simpl in *; try discriminate; try contradiction.
+  destruct Hp1 as [Hw2 Hc2]. destruct s as [x|]; [discriminate|].
+  pose proof (name_matches_with_subcommand_post a2 w COMMAND_BREAK 1 SUBCOMMANDS_BREAK None Hw2 Hc2) as Hp2.
+  destruct (name_matches_with_subcommand a2 w COMMAND_BREAK 1 SUBCOMMANDS_BREAK None)
+    as [[b a3]|e|p|q]; simpl in *; try discriminate; try contradiction.
+  destruct b as [x|]; [discriminate|].
+  destruct (find_name_match w COMMANDS); [discriminate|].
+  destruct (leqb w (str "sudo")) eqn:El; [|discriminate].
+  intros H. split; [congruence|]. exists ws. apply leqb_eq in El. rewrite El. reflexivity.
+Qed.
+
+(** Every line that the grammar gives no meaning is rejected with an error and nothing else
+    happens — except that a line whose first word is `sudo` makes the process exit (F15). *)
+Theorem try_from_rejects : forall c line, nodelim (c :: line) -> c <> 32 ->
+  (forall cmd, ~ LineSyn (c :: line) cmd) ->
+  (exists e, try_from (c :: line) = Err e) \/
+  (try_from (c :: line) = ExitP 0 /\ exists ws, words (c :: line) = str "sudo" :: ws).
+Proof.
+  intros c line Hn Hc Hno.
+  pose proof (try_from_post c line Hn Hc) as Hp.
+  destruct (try_from (c :: line)) as [cmd|e|p|q] eqn:Et.
+  - exfalso. apply (Hno cmd). apply try_from_iff; assumption.
+  - left. eauto.
+  - contradiction.
+  - right. unfold try_from in Et.
+    pose proof (get_command_name_post c line Hn Hc) as Hg.
+    destruct (get_command_name (arguments_from (c :: line))) as [[name a]|e|p|q'] eqn:Eg; simpl in Et; try discriminate.
+    + exfalso. destruct Hg as [Hw H0]. simpl in *.
+      pose proof (parse_arguments_post name a Hw H0) as Hpa.
+      destruct (parse_arguments name a); simpl in *; try discriminate; contradiction.
+    + inversion Et; subst. destruct (get_command_name_exit _ _ Hn Eg) as [-> Hws]. auto.
+Qed.
+
+(** Exactly the lines without the word `sudo` in front are covered by the documented grammar. *)
+Corollary sudo_not_in_grammar : forall ws cmd line, words line = str "sudo" :: ws -> ~ LineSyn line cmd.
+Proof.
+  intros ws cmd line Hw H.
+  assert (Hn : forall c n, ~ NameSyn (str "sudo" :: ws) c n).
+  { intros c n Hx. inversion Hx; subst; vm_compute in *; discriminate. }
+  inversion H; subst; match goal with Hx : NameSyn _ _ _ |- _ => rewrite Hw in Hx; exact (Hn _ _ Hx) end.
+Qed.
+
+Lemma try_from_exit : forall c line q, nodelim (c :: line) -> c <> 32 ->
+  try_from (c :: line) = ExitP q -> q = 0 /\ exists ws, words (c :: line) = str "sudo" :: ws.
+Proof.
+  intros c line q Hn Hc Et. unfold try_from in Et.
+  pose proof (get_command_name_post c line Hn Hc) as Hg.
+  destruct (get_command_name (arguments_from (c :: line))) as [[name a]|e|p|q'] eqn:Eg; simpl in Et; try discriminate.
+  - exfalso. destruct Hg as [Hw H0]. simpl in *.
+    pose proof (parse_arguments_post name a Hw H0) as Hpa.
+    destruct (parse_arguments name a); simpl in *; try discriminate; contradiction.
+  - inversion Et; subst. exact (get_command_name_exit _ _ Hn Eg).
+Qed.
+
+(** Everything the parser can do with a line handed over by a reader, in one statement. *)
+Theorem parse_line_classified : forall raw, nodelim raw ->
+  match parse_line raw with
+  | None => trim raw = []
+  | Some (Ok cmd) => LineSyn (trim raw) cmd
+  | Some (Err _) => forall cmd, ~ LineSyn (trim raw) cmd
+  | Some (ExitP code) => code = 0 /\ (exists ws, words (trim raw) = str "sudo" :: ws) /\
+                         forall cmd, ~ LineSyn (trim raw) cmd
+  | Some (Panic _) => False
+  end.
+Proof.
+  intros raw Hn. unfold parse_line. destruct (trim raw) as [|c t] eqn:E; [reflexivity|].
+  assert (Hc : c <> 32). { intros ->. apply trim_head in E. discriminate. }
+  assert (Hn' : nodelim (c :: t)). { rewrite <- E. apply trim_nodelim. exact Hn. }
+  pose proof (try_from_post c t Hn' Hc) as Hp.
+  destruct (try_from (c :: t)) as [cmd|e|p|q] eqn:Et.
+  - apply try_from_iff; assumption.
+  - intros cmd H. apply (try_from_iff _ _ Hn') in H. congruence.
+  - exact Hp.
+  - destruct (try_from_exit c t q Hn' Hc Et) as [-> [ws Hws]].
+    split; [reflexivity|]. split; [eauto|]. intros cmd. eapply sudo_not_in_grammar; exact Hws.
+Qed.
